@@ -11,7 +11,9 @@ SCHEDULES_QUICK = ["--gc every:1", "--gc every:3 --full 1", "--gc coin:1/7:{seed
 SCHEDULES_THOROUGH = SCHEDULES_QUICK + ["--gc every:2", "--gc every:5 --full 0", "--gc every:7", "--gc every:13 --full 1",
                                         "--gc coin:1/2:{seed}", "--gc coin:1/100:{seed} --full 1", "--gc every:1 --full 0"]
 
-SKIP_FIXTURES = ("native_stack_overvflow", "stdin", "lox.lay", "too_many", "/import/", "/module/", "regression")
+# fixtures whose outcome depends on the clock, the environment or a random source are not differential inputs
+SKIP_FIXTURES = ("native_stack_overvflow", "stdin", "lox.lay", "too_many", "/import/", "/module/", "regression",
+                 "clock.lay", "/benchmark/", "/std_lib/env/", "rand.lay", "/std_lib/io/")
 
 
 def canon(r):
